@@ -120,6 +120,40 @@ Theorem C13_csv : forall sf64 sf32 jm (t : table), t_cols t <> [] ->
   csv_read (TableToCSV sf64 sf32 jm t) = Some (csv_records sf64 sf32 jm t).
 Proof. exact TableToCSV_reads. Qed.
 Print Assumptions C13_csv.
+(* ---- repair of the lone-empty-field defect (csv.go writeCSVRecord): for ALL records the writer used by
+   ToCSV is read back by the RFC 4180 reader AND by a reader that skips empty lines; no line of a
+   table's export is empty.  "Line" = line outside a quoted field (csv_blank, Spec.v): a line end met
+   where a record would begin.  Blank lines INSIDE a quoted field (a cell text "a LF LF b") are part
+   of the field for every reader, which is why the statement is not "the bytes contain no LF LF".
+   csv_read_skip = csv_read after those empty lines have been dropped. *)
+Theorem C13_csv_lines_roundtrip : forall recs : list (list bytes),
+  Forall (fun r => r <> []) recs ->
+  csv_read (concat (map writeCSVRecord recs)) = Some recs
+  /\ csv_read_skip (concat (map writeCSVRecord recs)) = Some recs.
+Proof. intros recs H. split; [apply csv_lines_roundtrip|apply csv_lines_skip_roundtrip]; exact H. Qed.
+Print Assumptions C13_csv_lines_roundtrip.
+Theorem C13_csv_no_blank_line : forall sf64 sf32 jm (t : table), t_cols t <> [] ->
+  csv_blank false true (TableToCSV sf64 sf32 jm t) = false.
+Proof. exact TableToCSV_no_blank_line. Qed.
+Print Assumptions C13_csv_no_blank_line.
+(* for every text at all: without an empty line the two readers agree *)
+Theorem C13_csv_skip_agrees : forall t : bytes, csv_blank false true t = false -> csv_read_skip t = csv_read t.
+Proof. exact csv_skip_agrees. Qed.
+Print Assumptions C13_csv_skip_agrees.
+Theorem C13_csv_skip_reader : forall sf64 sf32 jm (t : table), t_cols t <> [] ->
+  csv_read_skip (TableToCSV sf64 sf32 jm t) = csv_read (TableToCSV sf64 sf32 jm t)
+  /\ csv_read_skip (TableToCSV sf64 sf32 jm t) = Some (csv_records sf64 sf32 jm t).
+Proof. exact TableToCSV_skip_reads. Qed.
+Print Assumptions C13_csv_skip_reader.
+Example C13_csv_skip_reader_ex :
+  let t := {| t_name := B "t"; t_rowcount := 4;
+              t_cols := [ {| c_name := []; c_type := B "text"; c_typid := 25 |} ];
+              t_rows := [ [ ([], VNil) ]; [ ([], VStr []) ]; []; [ ([], VStr (B "a" ++ [x0a; x0a] ++ B "b")) ] ] |} in
+  TableToCSV (fun _ => []) (fun _ => []) (fun _ => []) t
+    = B """""" ++ [x0a] ++ B """""" ++ [x0a] ++ B """""" ++ [x0a] ++ B """""" ++ [x0a] ++ B """a" ++ [x0a; x0a] ++ B "b""" ++ [x0a]
+  /\ csv_read_skip (TableToCSV (fun _ => []) (fun _ => []) (fun _ => []) t)
+    = Some [ [[]]; [[]]; [[]]; [[]]; [B "a" ++ [x0a; x0a] ++ B "b"] ].
+Proof. split; vm_compute; reflexivity. Qed.
 Theorem C13_csv_concat : forall sf64 sf32 jm (d : database) dbs,
   (DatabaseToCSV sf64 sf32 jm d =
      concat (map (fun t => (B "# Database: " ++ cesc (d_name d) ++ B ", Table: " ++ cesc (t_name t)) ++ [x0a]
@@ -140,5 +174,14 @@ Proof. exact old_ident_refuted. Qed.
 Theorem C13_comment_refuted :
   exists toks, lex_all (old_table_comment w_comment 0) = Some toks /\ (1 < length toks)%nat /\ In (TIdent (B "drop")) toks.
 Proof. exact old_comment_refuted. Qed.
+(* before the repair: one column, rows NULL / "" / "v" -- two empty lines, which the skipping reader drops *)
+Theorem C13_csv_blank_refuted :
+  old_TableToCSV w_csv_table = B "c" ++ [x0a; x0a; x0a] ++ B "v" ++ [x0a]
+  /\ csv_blank false true (old_TableToCSV w_csv_table) = true
+  /\ csv_read (old_TableToCSV w_csv_table) = Some [ [B "c"]; [[]]; [[]]; [B "v"] ]
+  /\ csv_read_skip (old_TableToCSV w_csv_table) = Some [ [B "c"]; [B "v"] ]
+  /\ csv_read_skip (old_TableToCSV w_csv_table)
+     <> Some (csv_records (fun _ => []) (fun _ => []) (fun _ => []) w_csv_table).
+Proof. exact old_csv_blank_refuted. Qed.
 Theorem C13_json_refuted : json_read (B "{" ++ old_json_key (B "a\") ++ B ":1}") = None.
 Proof. exact old_json_refuted. Qed.
